@@ -19,7 +19,7 @@ const char *MUTS[] = {"Hputelement-new", "Hputelement-existing", "Hstartwrite", 
                       // appended later (indices of stored plans stay valid)
                       "VSsetclass-on-r", "VSfdefine-on-r", "VSsetinterlace-on-r", "VSsetexternalfile-on-r", "Vdeletetagref-on-r",
                       "Vinsert-on-r", "SDsetdimstrs", "SDsetnbitdataset", "SDsetdimval_comp", "GRsetexternalfile", "GRsetchunk",
-                      "SDwritechunk", "GRwritechunk"};
+                      "SDwritechunk", "GRwritechunk", "Hsetlength-on-read-aid", "Happendable-on-read-aid"};
 const int   NMUT   = sizeof MUTS / sizeof MUTS[0];
 
 // Mutators kept out of the search unless knob unguard_ro_api=1 is set.  Empty: the sixteen mutators that read-only
@@ -46,7 +46,7 @@ struct ReadOnly : Profile {
     {
         std::vector<std::string> v = {"mutator-refused", "phase-c", "external-present", "read-in-phase-b"};
         for (int i = 0; i < NMUT; i++)
-            if (strcmp(MUTS[i], "Hsync") && strcmp(MUTS[i], "Hcache")) // these two may succeed: there is nothing to flush
+            if (strcmp(MUTS[i], "Hsync") && strcmp(MUTS[i], "Hcache") && strcmp(MUTS[i], "Happendable-on-read-aid")) // these may succeed: nothing is written
                 v.push_back(std::string("refused:") + MUTS[i]);
         return v;
     }
@@ -58,6 +58,7 @@ struct ReadOnly : Profile {
         Rng kr          = rng.sub(1);
         p.knobs["ndds"] = kr.chance(0.5) ? kr.range(2, 8) : 16;
         p.knobs["oldversion"] = kr.chance(0.35) ? 1 : 0;
+        p.knobs["with_writer"] = kr.chance(0.15) ? 1 : 0; // another client holds the file open for writing during phase B (SD calls only)
         Rng r = rng.sub(2);
         int na = (int)r.range(3, 10), nb = (int)r.range(10, thorough ? 60 : 40);
         for (int i = 0; i < na; i++) {
@@ -66,6 +67,8 @@ struct ReadOnly : Profile {
             else
                 p.ops.push_back(MixedGen::write_op(r, (int)r.below(5), false, 60));
         }
+        if (r.chance(0.2))
+            p.ops.push_back(mkop(0, "hempty", {})); // a descriptor without data: a writer started an element and never wrote it
         p.ops.push_back(mkop(0, "end", {}));
         p.ops.push_back(mkop(0, "freeze", {}));
         std::vector<Op> reads;
@@ -342,13 +345,25 @@ struct ReadOnly : Profile {
             return have_elem ? Hdupdd(fid, 8994, 1, tag, ref) == FAIL : -1;
         if (n == "HDreuse_tagref")
             return have_elem ? HDreuse_tagref(fid, tag, ref) == FAIL : -1;
-        if (n == "Hwrite-on-read-aid" || n == "Htrunc-on-read-aid") {
+        if (n == "Hsetlength-on-read-aid" && Hexist(fid, 8997, 1) != FAIL) {
+            // the descriptor without data: for a reader it is "new" as well, but a reader gives it no room in the file
+            int32 aid = Hstartread(fid, 8997, 1);
+            if (aid == FAIL)
+                return -1;
+            int res = Hsetlength(aid, 16) == FAIL;
+            Hendaccess(aid);
+            return res;
+        }
+        if (n == "Hwrite-on-read-aid" || n == "Htrunc-on-read-aid" || n == "Hsetlength-on-read-aid" || n == "Happendable-on-read-aid") {
             if (!have_elem)
                 return -1;
             int32 aid = Hstartread(fid, tag, ref);
             if (aid == FAIL)
                 return -1;
-            int res = n == "Hwrite-on-read-aid" ? Hwrite(aid, 1, data) == FAIL : Htrunc(aid, 0) == FAIL;
+            int res = n == "Hwrite-on-read-aid"       ? Hwrite(aid, 1, data) == FAIL
+                      : n == "Htrunc-on-read-aid"     ? Htrunc(aid, 0) == FAIL
+                      : n == "Hsetlength-on-read-aid" ? Hsetlength(aid, 64) == FAIL
+                                                      : (Happendable(aid) == FAIL ? 1 : -1); // a flag in memory only: may succeed, must not write
             Hendaccess(aid);
             return res;
         }
@@ -517,9 +532,19 @@ struct ReadOnly : Profile {
         uint64_t              frozen_hash = 0;
         bool                  frozen = false;
         int                   refused = 0;
+        int32                 writer_fid = FAIL;
         for (size_t i = 0; i < p.ops.size(); i++) {
             const Op &o = p.ops[i];
             ctx.begin_op((int)i);
+            if (o.kind == "hempty") {
+                if (mx.need_h()) {
+                    int32 aid = Hstartaccess(mx.fid, 8997, 1, DFACC_WRITE);
+                    if (aid == FAIL || Hendaccess(aid) == FAIL)
+                        ctx.fail("workload-call-failed", "workload-call-failed:hempty", "creating a descriptor without data failed");
+                    ctx.probe("descriptor-without-data");
+                }
+                continue;
+            }
             if (o.kind == "freeze") {
                 mx.end_session();
                 if (mx.call_failed)
@@ -530,6 +555,15 @@ struct ReadOnly : Profile {
                 mx.acc_mode = DFACC_READ;
                 ta          = read_everything(ctx, mx, "reading the new file back");
                 mx.end_session();
+                if (p.knob("with_writer", 0)) {
+                    // Another client has the file open for writing (and edits nothing).  The access mode of the H layer belongs
+                    // to the file, not to the id, so H-level calls are left out of such a phase B; an SD handle opened for
+                    // reading has its own mode and must stay read-only whoever else has the file open.
+                    writer_fid = Hopen(mx.path.c_str(), DFACC_RDWR, 0);
+                    if (writer_fid == FAIL)
+                        ctx.fail("open-failed", "open-failed:writer", "Hopen(RDWR) for the second client failed");
+                    ctx.probe("second-client-holds-file-for-writing");
+                }
                 simfs::freeze_all(true);
                 frozen_hash = simfs::disk_hash(simfs::disk());
                 frozen      = true;
@@ -549,6 +583,11 @@ struct ReadOnly : Profile {
                     ctx.fail("ro-write", "ro-write:bytes-differ", "a file differs byte-for-byte after the read-only session");
                 // phase C: read-write open, no edits, close
                 simfs::freeze_all(false);
+                if (writer_fid != FAIL) {
+                    if (Hclose(writer_fid) == FAIL)
+                        ctx.fail("close-failed", "close-failed:writer", strf("closing the second client's id failed: %s", herr().c_str()));
+                    writer_fid = FAIL;
+                }
                 if (p.knob("oldversion", 0)) {
                     // pretend the file was written by an older release: patch the stored library version (first
                     // 12 bytes of the DFTAG_VERSION element are major, minor, release)
@@ -593,6 +632,10 @@ struct ReadOnly : Profile {
                 if (!frozen)
                     continue;
                 int api = modn(o.arg(0), NMUT);
+                if (writer_fid != FAIL && strncmp(MUTS[api], "SD", 2) != 0) {
+                    ctx.st.ops_skipped++;
+                    continue;
+                }
                 bool guarded = false;
                 for (int g = 0; GUARDED[g]; g++)
                     guarded |= strcmp(GUARDED[g], MUTS[api]) == 0;
@@ -621,6 +664,10 @@ struct ReadOnly : Profile {
             if (frozen) {
                 mx.acc_mode = DFACC_READ;
                 mx.call_failed = false;
+            }
+            if (frozen && writer_fid != FAIL && o.kind != "sdread" && o.kind != "end") {
+                ctx.st.ops_skipped++;
+                continue;
             }
             if (mx.run(o))
                 ctx.st.ops_done++;
